@@ -29,6 +29,15 @@ func verifC03Eval(src string, td, cd, ei bool) string {
 			vm.Func(fn, 2, Int32(1))
 		}
 	}
+	// odd uses of Call / Func: names that are no functions or do not exist, function-typed globals that were never
+	// assigned, negative and large result counts
+	for _, name := range []string{"main.f", "main.x", "main.cb", "main.nosuch", "main.T"} {
+		fn := vm.Get(name)
+		vm.Call(name, -1)
+		vm.Call(name, 5, Int32(1), String("s"))
+		vm.Func(fn, -1)
+		vm.Func(fn, 0, Nil())
+	}
 	return ""
 }
 
